@@ -368,3 +368,6 @@ def replay(doc):
     if bad:
         return True, f"reproduced: {bad[0]}: {bad[1]}"
     return False, "agrees with brute force"
+
+
+RULE += ' Also (wave 9): the first results taken with next() and the rest in a loop over the same object; 15000-19000 elements used lazily.'
